@@ -27,14 +27,6 @@ def Matches (a : Alarm) (cal : Calendar) (r : Nat) : Prop :=
   | .oneshot => OneshotMatch a.sod r
   | .workday => WorkdayMatch a.sod cal a.wd r
 
-/-- no uint32 wrap around the local computation that starts at UTC second `start` with
-time-zone offset `off`: local start not before 1970, and 368 days of head-room below 2^32
-on both the local and the UTC side -/
-def InRange (start : Nat) (off : Int) : Prop :=
-  0 ≤ (start : Int) + off ∧ (start : Int) + off + 368 * 86400 ≤ 4294967296 ∧ start + 368 * 86400 ≤ 4294967296
-
-instance (start : Nat) (off : Int) : Decidable (InRange start off) := by unfold InRange; infer_instance
-
 /-- the state-machine invariant: the loop timer is armed exactly while the alarm is enabled -/
 def Inv (a : Alarm) : Prop := (a.st = .running ↔ a.timer.isSome = true)
 
